@@ -81,6 +81,21 @@ def cmdOp (args : List String) : String :=
     | _, _, _, _, _, _ => "bad-op"
   | _ => "bad-op"
 
+/-- `c09shift <pq|qp|pmq> rp rq <uP: sn sd oc on od> sqn sqd vp vq` → point ± quantity, value in the result unit. -/
+def cmdShift (args : List String) : String :=
+  match args with
+  | [ops, rps, rqs, a1, a2, a3, a4, a5, qn, qd, vps, vqs] =>
+    let op? : Option ShiftOp := match ops with
+      | "pq" => some .pPlusQ | "qp" => some .qPlusP | "pmq" => some .pMinusQ | _ => none
+    match op?, IntTy.ofName? rps, IntTy.ofName? rqs, parseUnit? [a1, a2, a3, a4, a5], parseNat? qn, parseNat? qd, parseInt? vps, parseInt? vqs with
+    | some op, some rp, some rq, some uP, some n, some d, some vp, some vq =>
+      if n = 0 || d = 0 || !(decide (rp.inRange vp) && decide (rq.inRange vq)) then "bad-op" else
+      let x := pointShift op rp rq uP ⟨n, d⟩ vp vq
+      let cu := shiftResultUnit uP ⟨n, d⟩
+      s!"rep={(IntTy.common rp rq).name} scale={cu.scale.reduced.num}/{cu.scale.reduced.den} val={evalStr x.val} wrapped={b01 x.wrapped} narrowed={b01 x.narrowed}"
+    | _, _, _, _, _, _, _, _ => "bad-op"
+  | _ => "bad-op"
+
 end C09Cmd
 
 def dispatchC09 : List String → Option String
@@ -88,6 +103,7 @@ def dispatchC09 : List String → Option String
   | "c09imp" :: args => some (C09Cmd.cmdImp args)
   | "c09cpu" :: args => some (C09Cmd.cmdCpu args)
   | "c09op" :: args => some (C09Cmd.cmdOp args)
+  | "c09shift" :: args => some (C09Cmd.cmdShift args)
   | _ => none
 
 /-! Driver commands for C09 (AuModel.Point). -/
